@@ -110,7 +110,7 @@ func runC14(c *Ctx) {
 			var setX *X
 			instrs(g, func(o ssa.Instruction) {
 				if ci, ok := o.(ssa.CallInstruction); ok {
-					if x := c.CallX(ci); nameMatches(x.Name, "latestSyncHandler).setLatestSync") {
+					if x := c.CallX(ci); x.Callee != nil && x.Callee == c.Role("latest.set") {
 						setLatest, setX = o, x
 					}
 				}
